@@ -40,6 +40,7 @@ enum Fun {
     Exp(f64, f64),        // a * exp(c x)
     Sin(f64, f64, f64),   // a * sin(w x + p)
     Cis(f64, f64, f64),   // a * exp(i (w x + p))
+    Mix(Box<Fun>, Box<Fun>), // re(f1(x)) + i re(f2(x)): real and imaginary parts of different difficulty
 }
 
 fn parse(v: &Value) -> Fun {
@@ -57,6 +58,7 @@ fn parse(v: &Value) -> Fun {
             let p = jfv(&v["p"]);
             Fun::Cis(p[0], p[1], p[2])
         }
+        "mix" => Fun::Mix(Box::new(parse(&v["re"])), Box::new(parse(&v["im"]))),
         k => panic!("unknown integrand {k}"),
     }
 }
@@ -67,6 +69,7 @@ fn eval(f: &Fun, x: f64) -> C64 {
         Fun::Exp(a, c) => C64::new(a * (c * x).exp(), 0.0),
         Fun::Sin(a, w, p) => C64::new(a * (w * x + p).sin(), 0.0),
         Fun::Cis(a, w, p) => C64::new(a * (w * x + p).cos(), a * (w * x + p).sin()),
+        Fun::Mix(re, im) => C64::new(eval(re, x).re, eval(im, x).re),
     }
 }
 
